@@ -88,6 +88,7 @@ func (l *listener) send(ctx context.Context, event any) (ok bool, active bool) {
 	l.m.RLock()
 	defer l.m.RUnlock()
 
+	verifhook.Yield("listener.send:before-select")
 	select {
 	case <-ctx.Done():
 		// send context cancelled
